@@ -190,3 +190,19 @@ contract(D + "memory.py::ImmuneMemory.import_signatures", "C17", self_type="Immu
                                                         "len(self.signatures) == len(old(self).signatures) + imported"]}},
          ensures={"imported-count-reported": "result == len(self.signatures) - len(old(self).signatures)",
                   "import-respects-capacity": "len(self.signatures) <= max(len(old(self).signatures), self.capacity)"})
+
+# feeding observations is not an entry to the verdict: it reaches exactly the named agent's display, once, and leaves every trained baseline and
+# every watcher (with its pending second signals) alone; an unregistered agent is refused
+contract(D + "immune_system.py::ImmuneSystem.record_observation", "C17", self_type="ImmuneSystemT",
+         params={"agent_id": "str", "output": "opt:str", "response_time": "real", "confidence": "real", "error": "opt:str"},
+         callbacks={"MHCDisplay.record": {"returns": "any", "raises": ()}}, raises=["ValueError"],
+         ensures={"recorded-once-for-the-named-agent": "calls_to('.record') == 1 and agent_id in old(self).displays",
+                  "baselines-and-watchers-untouched": "len(self.tcells) == len(old(self).tcells) and len(self.profiles) == len(old(self).profiles) "
+                                                      "and len(self.displays) == len(old(self).displays)"},
+         xensures={"refused-only-when-unregistered": "agent_id not in old(self).displays and calls_to('.record') == 0"})
+contract(D + "immune_system.py::ImmuneSystem.record_canary_result", "C17", self_type="ImmuneSystemT", params={"agent_id": "str", "passed": "bool"},
+         callbacks={"MHCDisplay.record_canary_result": {"returns": "any", "raises": ()}}, raises=["ValueError"],
+         ensures={"recorded-once-for-the-named-agent": "calls_to('.record_canary_result') == 1 and agent_id in old(self).displays",
+                  "baselines-and-watchers-untouched": "len(self.tcells) == len(old(self).tcells) and len(self.profiles) == len(old(self).profiles) "
+                                                      "and len(self.displays) == len(old(self).displays)"},
+         xensures={"refused-only-when-unregistered": "agent_id not in old(self).displays and calls_to('.record_canary_result') == 0"})
